@@ -257,6 +257,116 @@ def _ind_one(ch, k, init, inv, length, want, state, timeout=900):
     return rec
 
 
+def high_module(rows):
+    """rows: ("climb", n, r) | ("row", prev, v, r); row 0 is a corrupted copy of the first real row (negative control)."""
+    lines = ["---- MODULE UnwrapHighRun ----",
+             "(* generated by checks/c20.py: rows recorded from the real Unwrapper at states beyond 2^31 (TLC integers are 32-bit;",
+             "   Apalache evaluates the same operator UnwrapVal of Unwrap.tla over unbounded integers).  A climb of n forward steps of",
+             "   H - 1 from 0 is a true stream: the result is n * (H - 1) (clause Exact of IndUnwrap). *)",
+             "EXTENDS Unwrap", "VARIABLE", "  \\* @type: Int;", "  i", "CInit == M = 65536",
+             "\\* @type: (Int, Int, Int, Int) => Bool;",
+             "RowOk(k, p, v, r) == i = k => UnwrapVal([init |-> TRUE, last |-> p], v) = r",
+             "\\* @type: (Int, Int, Int) => Bool;",
+             "ClimbOk(k, n, r) == i = k => r = n * (H - 1)"]
+    groups = []
+    for g in range(0, len(rows), 50):
+        groups.append("G%d" % (g // 50))
+        lines.append("%s ==" % groups[-1])
+        for k, row in enumerate(rows[g:g + 50]):
+            if row[0] == "climb":
+                lines.append("  /\\ ClimbOk(%d, %d, %d)" % (g + k, row[1], row[2]))
+            else:
+                lines.append("  /\\ RowOk(%d, %d, %d, %d)" % (g + k, row[1], row[2], row[3]))
+    lines += ["Init == i \\in 0 .. %d" % (len(rows) - 1), "Next == UNCHANGED i", "View == i",
+              "Inv == " + " /\\ ".join(groups), "===="]
+    return "\n".join(lines) + "\n"
+
+
+def job_high(ch):
+    """The real Unwrapper at states around 2^31, 2^32, 2^33 (thorough: 2^40, 2^47): reached by climbing with the largest
+    forward step, then probed on copies and walked back and forth across the boundary; judged by Apalache."""
+    rng = random.Random(ch.seed * 7919 + 3)
+    targets = [2 ** 31, 2 ** 32, 2 ** 33] + ([] if ch.quick else [2 ** 40, 2 ** 47])
+    scripts = []
+    for tg in targets:
+        climb = tg // 32767 - 3
+        probe = [0, 1, 2, 32766, 32767, 32768, 32769, 40000, 65534, 65535, 100, rng.randrange(65536), rng.randrange(65536)]
+        walk = [32767, 32767, 32767, 32767]                       # across the boundary ...
+        for _ in range(60):
+            walk.append(rng.choice([32767, 32767, 1, 0, 65535, 65000, 32769, 32769, 32768, 100, 20000, 45000, rng.randrange(65536)]))
+        walk += [32769] * 6 + [32767] * 8                          # ... back below it and across again
+        scripts.append({"kind": "high", "in": [], "climb": climb, "probe": probe, "walk": walk})
+    inp, outp = ch.path("C20-high.in"), ch.path("C20-high.trace")
+    vlib.write_ndjson(inp, scripts)
+    ov = vlib.overlay(ch, vlib.harness_files(PKG_U, NAME_U, FILES_U), name="overlay-high.json")
+    rc, out = vlib.go_test(ch, PKG_U, ov, "^%s$" % TEST_U, env={"VERIF_IN": inp, "VERIF_OUT": outp, "VERIF_SEED": ch.seed})
+    if "VERIF-INFRA" in out:
+        raise vlib.Infra("harness error in %s:\n%s" % (TEST_U, out[-2500:]))
+    if rc != 0:
+        if "panic:" in out or "fatal error:" in out:
+            vlib.report_violation(ch, "high states: the real Unwrapper panicked", {"kind": "unwrap-high", "scripts": scripts,
+                                                                                  "go_output": out[-4000:]})
+            return
+        raise vlib.Infra("go test %s failed:\n%s" % (TEST_U, out[-2500:]))
+    evs = [e for e in vlib.read_ndjson(outp) if e.get("a") in ("climb", "row")]
+    rows, origin = [], []
+    k = -1
+    for e in vlib.read_ndjson(outp):
+        if e.get("a") == "reset":
+            k += 1
+        elif e.get("a") == "climb":
+            rows.append(("climb", e["n"], e["r"]))
+            origin.append(k)
+        elif e.get("a") == "row":
+            rows.append(("row", e["p"], e["v"], e["r"]))
+            origin.append(k)
+    if len(rows) != sum(1 + len(s["probe"]) + len(s["walk"]) for s in scripts):
+        raise vlib.Infra("high-state harness recorded %d rows" % len(rows))
+    first = next(r for r in rows if r[0] == "row")
+    ctrl = ("row", first[1], first[2], first[3] + 65536)
+    allrows = [ctrl] + rows
+    wd = ch.path("apalache-high")
+    os.makedirs(wd, exist_ok=True)
+    shutil.copy(os.path.join(ch.spec, "Unwrap.tla"), os.path.join(wd, "Unwrap.tla"))
+    with open(os.path.join(wd, "UnwrapHighRun.tla"), "w") as f:
+        f.write(high_module(allrows))
+    env = dict(os.environ)
+    env.pop("JAVA_TOOL_OPTIONS", None)
+    env["TMPDIR"] = wd
+    env.setdefault("JVM_ARGS", "-Xmx3g")
+    cmd = ["timeout", "900", "apalache-mc", "check", "--cinit=CInit", "--length=0", "--init=Init", "--next=Next", "--inv=Inv",
+           "--view=View", "--max-error=%d" % APALACHE_MAX_ERR, "--out-dir=" + os.path.join(wd, "out"), "UnwrapHighRun.tla"]
+    t0 = time.time()
+    p = subprocess.run(cmd, cwd=wd, env=env, stdout=subprocess.PIPE, stderr=subprocess.STDOUT, text=True)
+    rec = {"module": "Unwrap.tla", "mode": "apalache check --length=0 (rows recorded at states beyond 2^31)", "rows": len(rows),
+           "wall_s": round(time.time() - t0, 1), "exit": p.returncode}
+    ch.cov["model_runs"].append(rec)
+    if p.returncode not in (0, 12):
+        raise vlib.Infra("Apalache failed on the high-state rows (exit %d):\n%s" % (p.returncode, p.stdout[-2500:]))
+    bad = set()
+    for fn in sorted(glob.glob(os.path.join(wd, "out", "*", "*", "violation*.itf.json"))):
+        if os.path.basename(fn) == "violation.itf.json":
+            continue
+        iv = json.load(open(fn))["states"][0]["i"]
+        bad.add(int(iv["#bigint"]) if isinstance(iv, dict) else int(iv))
+    if 0 not in bad:
+        raise vlib.Infra("Apalache did not report the negative-control row of the high-state rows:\n%s" % p.stdout[-2500:])
+    bad.discard(0)
+    ch.cov["evaluations"] += len(rows)
+    ch.extra["unwrap_high"] = {"targets": ["2^%d" % (tg.bit_length() - 1) for tg in targets], "rows": len(rows),
+                               "divergent": len(bad), "wall_s": rec["wall_s"]}
+    for idx in sorted(bad)[:3]:
+        row = allrows[idx]
+        sc = scripts[origin[idx - 1]]
+        vlib.report_violation(
+            ch, "high states: the real Unwrapper diverges from Unwrap.tla at %s" % (
+                "climb of %d steps: result %d, expected %d" % (row[1], row[2], row[1] * 32767) if row[0] == "climb"
+                else "previous result %d, input %d: result %d" % (row[1], row[2], row[3])),
+            {"kind": "unwrap-high", "script": sc, "row": list(row)})
+    ch.log("(A) high states: %d rows around %s in %.1fs, %d divergent" % (
+        len(rows), ", ".join("2^%d" % (tg.bit_length() - 1) for tg in targets), rec["wall_s"], len(bad)))
+
+
 def job_inductive(ch):
     """Unbounded counterpart of job_mc: the clauses as ONE inductive invariant at the real modulus, discharged by Apalache/Z3
     for every non-negative state (base case + step), with a non-inductiveness control and four reachability controls."""
@@ -347,7 +457,7 @@ def job_tables(tag, targets_list, fresh=False):
 
 
 def unwrap_jobs(ctx, rng):
-    jobs = [("mc", job_mc), ("inductive", job_inductive), ("gen", job_gen)]
+    jobs = [("mc", job_mc), ("inductive", job_inductive), ("high", job_high), ("gen", job_gen)]
     low, mid, high = boundary_states(rng)
     if ctx.quick:
         jobs.append(("tab-low", job_tables("T-tables-low", [low], fresh=True)))
@@ -614,8 +724,9 @@ def _finish(ctx):
         "the result is the input itself (floor at zero) - DESIGN.md C20",
         "table start states are reached by input chains whose every step is validated; a table is taken on a copy of the "
         "Unwrapper struct (value semantics)",
-        "the real Unwrapper is compared with the specification at states below 2^31 (TLC integers are 32-bit); above that only the "
-        "specification is covered (IndUnwrap, unbounded integers) - int64 overflow of lastUnwrapped in the code is out of scope",
+        "the real Unwrapper is compared with the specification exhaustively (complete tables) at states below 2^31 (TLC integers "
+        "are 32-bit) and by sampled rows around 2^31, 2^32, 2^33 (thorough: 2^40, 2^47) judged by Apalache; int64 overflow of "
+        "lastUnwrapped (2^63) is out of scope",
         "Ntp.tla tolerances: 1 us = 4295 units for the 64-bit value, 1000 ns round trip, 2^-16 s + 1 us for the middle form; "
         "instants 1970-01-01 .. 2036-01-01; Apalache 0.58 evaluates the literal rows (constant simplification / Z3)",
         "NTP half is sampled: a float64 anomaly between samples would be missed",
@@ -651,6 +762,8 @@ def replay(ctx, path):
     if rep.get("kind") == "ntp" or (rep.get("script") or {}).get("kind") == "ntp":
         samples = [list(s) for s in rep["script"]["samples"]]
         run_parallel(ctx, [("replay-ntp", lambda ch: ntp_run(ch, samples, "replay", 300, 1))], 1)
+    elif rep.get("kind") == "unwrap-high":       # the high-state stage is deterministic in the seed: run it again as a whole
+        run_parallel(ctx, [("replay-high", job_high)], 1)
     else:
         scripts = vlib.replay_scripts(path)
         run_parallel(ctx, [("replay", lambda ch: unwrap_batch(ch, scripts, "replay"))], 1)
